@@ -89,13 +89,14 @@ var c01Letters = []string{
 // RunC01 decides C01 at the RIB tier.
 func RunC01(rep *report.Report, tier string) {
 	depth := 4
-	ck := NewClock(tier, 100*time.Second, 20*time.Minute, 6)
+	ck := NewClock(tier, 100*time.Second, 20*time.Minute, 9)
 	if tier == "thorough" {
 		depth = 6
 	}
 	letters := Alphabet(c01Letters...)
 	rep.Set("alphabet", Names(letters))
 	// cheapest searches first: what a search does not use of its share of the budget rolls over to the later ones
+	fullSearches(rep, tier, ck, Checks{Fold: true}, 0)
 	for _, name := range []string{"held-operations", "groups-installed", "entries-installed"} {
 		o := &Options{Letters: letters, Checks: Checks{Fold: true}, Init: Alphabet(ribInits[name]...)}
 		Search(rep, "rib/from-"+name, o, depth-1, ck.Next())
@@ -107,6 +108,28 @@ func RunC01(rep *report.Report, tier string) {
 	for _, nofwd := range []bool{true, false} {
 		o := &Options{Letters: letters, NoFwdRefs: nofwd, Checks: Checks{Fold: true}}
 		Search(rep, fmt.Sprintf("rib/forward-refs-%v", !nofwd), o, depth, ck.Next())
+	}
+}
+
+// fullInits are the start states of the searches over the generated, symmetric alphabet (short histories from rich
+// states: every kind of entry in both instances, same-instance and cross-instance references both ways).
+var fullInits = map[string][]string{
+	"all-kinds-both-instances": {"ADD nh1@D a", "ADD nh2@D", "ADD nh1@V", "ADD nh2@V", "ADD nhg1@D {1}", "ADD nhg2@D {2}", "ADD nhg1@V {1}", "ADD nhg2@V {2}",
+		"ADD v4 p@D ->1", "ADD v6 q@D ->1@V", "ADD mpls 100@D ->2", "ADD v4 p@V ->1@D", "ADD v6 q@V ->1", "ADD mpls 100@V ->1"},
+	"groups-in-both-instances": {"ADD nh1@D a", "ADD nh2@D", "ADD nh1@V", "ADD nh2@V", "ADD nhg1@D {1}", "ADD nhg2@D {2}", "ADD nhg1@V {1}", "ADD nhg2@V {2}"},
+	"held-in-both-instances":   {"ADD nh1@D a", "ADD nhg2@D {2}", "ADD v4 p@D ->2", "ADD v6 q@V ->1@D", "ADD mpls 100@V ->1", "ADD nhg1@V {1,2}"},
+}
+
+// fullSearches runs the symmetric alphabet from the rich start states (depth 2, thorough 3).
+func fullSearches(rep *report.Report, tier string, ck *Clock, checks Checks, hook HookConfig) {
+	d := 2
+	if tier == "thorough" {
+		d = 3
+	}
+	full := Alphabet(FullAlphabet()...)
+	for _, name := range []string{"all-kinds-both-instances", "groups-in-both-instances", "held-in-both-instances"} {
+		o := &Options{Letters: full, Checks: checks, Hook: hook, Init: Alphabet(fullInits[name]...)}
+		Search(rep, "rib/symmetric-alphabet/from-"+name, o, d, ck.Next())
 	}
 }
 
@@ -137,7 +160,7 @@ var c02Graphs = map[string][]string{
 // RunC02 decides C02 at the RIB tier.
 func RunC02(rep *report.Report, tier string) {
 	depth, maxGraph := 4, 7
-	ck := NewClock(tier, 100*time.Second, 20*time.Minute, 20)
+	ck := NewClock(tier, 100*time.Second, 20*time.Minute, 23)
 	if tier == "thorough" {
 		depth, maxGraph = 6, 7
 	}
@@ -178,6 +201,7 @@ func RunC02(rep *report.Report, tier string) {
 		Merge(rep, fmt.Sprintf("arrival-orders/%s/forward-refs-true/descending-map-order", g), res, len(ls))
 	}
 	rt.MapOrder = 0
+	fullSearches(rep, tier, ck, Checks{Resolve: true, Fold: true}, 0)
 	// from non-initial states: a DELETE that must be refused needs an installed chain first
 	for _, name := range []string{"groups-installed", "cross-instance"} {
 		o := &Options{Letters: letters, Checks: Checks{Resolve: true, Fold: true}, Init: Alphabet(c03Inits[name]...)}
@@ -203,7 +227,7 @@ var c03Letters = []string{
 // RunC03 decides C03 at the RIB tier.
 func RunC03(rep *report.Report, tier string) {
 	depth := 4
-	ck := NewClock(tier, 100*time.Second, 20*time.Minute, 4+len(c03Inits))
+	ck := NewClock(tier, 100*time.Second, 20*time.Minute, 7+len(c03Inits))
 	names := append([]string{}, c03Letters...)
 	if tier == "thorough" {
 		depth = 6
@@ -211,6 +235,7 @@ func RunC03(rep *report.Report, tier string) {
 	names = append(names, "ADD nhg1@D {1,1}")
 	letters := Alphabet(names...)
 	rep.Set("alphabet", Names(letters))
+	fullSearches(rep, tier, ck, Checks{Referrers: true}, 0)
 	// from non-initial states: all next-hops and groups installed / additionally every top-level entry installed
 	for _, name := range []string{"groups-installed", "entries-installed", "cross-instance"} {
 		init := c03Inits[name]
@@ -250,12 +275,13 @@ var c16Letters = []string{
 // RunC16 decides the post-change-hook half of C16 at the RIB tier.
 func RunC16(rep *report.Report, tier string) {
 	depth := 4
-	ck := NewClock(tier, 100*time.Second, 20*time.Minute, 13)
+	ck := NewClock(tier, 100*time.Second, 20*time.Minute, 16)
 	if tier == "thorough" {
 		depth = 5
 	}
 	letters := Alphabet(c16Letters...)
 	rep.Set("alphabet", Names(letters))
+	fullSearches(rep, tier, ck, Checks{Hooks: true}, HookAfterNIs)
 	for _, hc := range []HookConfig{HookAfterNIs, HookBeforeNIs} {
 		for _, name := range []string{"held-operations", "entries-installed"} {
 			o := &Options{Letters: letters, Checks: Checks{Hooks: true}, Hook: hc, Init: Alphabet(ribInits[name]...)}
@@ -313,12 +339,13 @@ var c07Letters = []string{
 // RunC07Hist is the history tier of C07: the Get stream after every step of every history.
 func RunC07Hist(rep *report.Report, tier string) {
 	depth := 3
-	ck := NewClock(tier, 100*time.Second, 20*time.Minute, 3)
+	ck := NewClock(tier, 100*time.Second, 20*time.Minute, 6)
 	if tier == "thorough" {
 		depth = 5
 	}
 	letters := Alphabet(c07Letters...)
 	rep.Set("history_alphabet", Names(letters))
+	fullSearches(rep, tier, ck, Checks{GetFold: true}, 0)
 	for _, name := range []string{"entries-installed", "held-operations"} {
 		o := &Options{Letters: letters, Checks: Checks{GetFold: true}, Init: Alphabet(ribInits[name]...)}
 		Search(rep, "get-after-every-step/from-"+name, o, depth, ck.Next())
